@@ -127,21 +127,31 @@ func RunHarness(r *Report, h HarnessRun) {
 		// a fatal runtime error of the code under test (not recoverable inside the harness process) is an internal
 		// crash of grog, i.e. a verdict, as long as it did not originate in the verification packages themselves
 		se := stderr.String()
-		for _, fe := range []string{"fatal error: concurrent map", "fatal error: sync: unlock of unlocked mutex", "fatal error: all goroutines are asleep"} {
-			if i := strings.Index(se, fe); i >= 0 {
-				rest := se[i:]
-				if j := strings.Index(rest, "\n\n"); j > 0 {
-					first := rest[:j]
-					k := strings.Index(rest[j+2:], "\n\n")
-					if k > 0 {
-						first = rest[:j+2+k]
-					}
-					if strings.Contains(first, "grog/internal/") && !strings.Contains(strings.SplitN(first, "\n", 4)[len(strings.SplitN(first, "\n", 4))-1], "zverif") {
-						line := strings.SplitN(rest, "\n", 2)[0]
-						r.Violate(Violation{Sig: r.Property + ":fatal-runtime-error:" + strings.ReplaceAll(strings.TrimPrefix(line, "fatal error: "), " ", "-"), Detail: fmt.Sprintf("%s: the process under test died: %s", h.Tag, lastBytes(first, 1500)), Replay: map[string]any{"stderr": lastBytes(first, 3000)}})
-						return
-					}
+		for _, fe := range []string{"fatal error: concurrent map", "fatal error: sync: unlock of unlocked mutex"} {
+			k := strings.Index(se, fe)
+			if k < 0 {
+				continue
+			}
+			rest := se[k:]
+			line := strings.SplitN(rest, "\n", 2)[0]
+			// the stack of the goroutine that died: up to the first blank line after "goroutine N [running]:"
+			block := rest
+			if g := strings.Index(rest, "goroutine "); g >= 0 {
+				block = rest[g:]
+				if e := strings.Index(block, "\n\n"); e > 0 {
+					block = block[:e]
 				}
+			}
+			firstGrog := ""
+			for _, l := range strings.Split(block, "\n") {
+				if strings.HasPrefix(l, "grog/internal/") {
+					firstGrog = l
+					break
+				}
+			}
+			if firstGrog != "" && !strings.Contains(firstGrog, "/zverif/") {
+				r.Violate(Violation{Sig: r.Property + ":fatal-runtime-error:" + strings.ReplaceAll(strings.TrimPrefix(line, "fatal error: "), " ", "-"), Detail: fmt.Sprintf("%s: the process under test died with %q in %s", h.Tag, line, firstGrog), Replay: map[string]any{"stack": lastBytes(block, 3000)}})
+				return
 			}
 		}
 		r.BrokenCheck("%s: harness ended without completing (err=%v)\nstdout tail: %s\nstderr tail: %s", h.Tag, err, strings.Join(tail, "\n"), lastBytes(stderr.String(), 3000))
